@@ -6,7 +6,7 @@ import random
 import sys
 import types
 
-from common import main
+from common import main, budget
 import build
 
 EPS = 1e-6
@@ -162,7 +162,7 @@ def points_near(rng, d, n):
 
 def search(item, seed):
     rng = random.Random((seed or 0) * 17 + 12)
-    for _ in range(150):
+    for _ in range(budget(150)):
         d = gen_box(rng)
         pts = points_near(rng, d, rng.randint(0, 40))
         if rng.random() < 0.3:
@@ -184,7 +184,7 @@ def search(item, seed):
             why = f"raised {type(ex).__name__}: {ex}"
         if why:
             return dict(function="crop_pointcloud", input=case, observed=why)
-    for _ in range(60):
+    for _ in range(budget(60)):
         gts = [dict(gen_box(rng), vis=rng.choice([None, "full", "none", "partial"])) for _ in range(rng.randint(0, 3))]
         pts = [p for d in gts for p in points_near(rng, d, rng.randint(0, 6))] or [[50.0, 50.0, 0.0]]
         nondet = [[p for d in gts for p in points_near(rng, d, rng.randint(0, 4))] + [[round(rng.uniform(-40, 40), 2), round(rng.uniform(-40, 40), 2), round(rng.uniform(-1, 1), 2)]
